@@ -99,7 +99,12 @@ LinStep ==
 
 Hung == (Is("hung") \/ Is("inconclusive")) /\ UNCHANGED lockVars /\ Next1
 
-Next == Hung \/ RelCall \/ New \/ Call \/ Ret \/ PollPending \/ Wake \/ Cancel \/ Rel \/ Quiesce \/ End \/ LinStep
+\* the waker of an earlier poll (replaced by a re-poll with another waker) was invoked: it
+\* wakes nobody, so it does not count as waking the operation
+WakeStale == Is("wake_stale") /\ UNCHANGED lockVars /\ Next1
+
+Next ==
+  \/ WakeStale \/ Hung \/ RelCall \/ New \/ Call \/ Ret \/ PollPending \/ Wake \/ Cancel \/ Rel \/ Quiesce \/ End \/ LinStep
 Spec == Init /\ [][Next]_vars
 
 Accepted ==
